@@ -102,7 +102,7 @@ META = dict(
                 "call runs the function; numbers whose truncation is in range arrive as exactly that Go integer for every integer kind (fractions "
                 "truncated), float64 unchanged, float32 IEEE-rounded (proved exact when representable); results whose STATIC type is numeric — and "
                 "numbers inside a result declared as interface{} (every plugin function) — come back as ECAL numbers, integers exactly up to 2^53, "
-                "for every position of a multi-result; a trailing error is delivered as the call's error, nil as none; whatever kind of error value "
+                "for every position of a multi-result (NOT numbers nested in returned slices / maps: known finding); a trailing error is delivered as the call's error, nil as none; whatever kind of error value "
                 "comes back (typed nil, panicking Error(), nil *RuntimeError), executeFunction yields a value or a catchable runtime error. "
                 "Totality itself (no panic escapes Run / the interpreter) is NOT a consequence of the model of reflect: it is Go's defer/recover "
                 "semantics plus the regenerated source facts (recover shape, completion flag for panic(nil), guarded Error()/AddTrace, plugin "
@@ -111,11 +111,13 @@ META = dict(
     level_note=("Trusted: Lean kernel + propext/Classical.choice/Quot.sound; the model of reflect's checks; the extractor; the harness; Go's defer/recover and "
                 "GODEBUG panicnil semantics. Out-of-range float->int conversions are implementation-defined and only covered by totality. The theorems "
                 "describe /repo WITH fixes/C19-error-value-after-recover.patch, C19-panic-nil.patch and C19-iface-result-numbers.patch; on a tree without "
-                "them the check reports the three defects (findings/C19-defect-E1/E2/E3-*.json). The theorems describe /repo WITH fixes/C19-nested-result-numbers.patch as well (slices / arrays / maps of Go values become ECAL lists / maps "
-                "with converted numbers: nested_numbers_delivered). Still passed on raw by the code, by design: Go numbers a function has put INTO a "
-                "[]interface{} / map[interface{}]interface{} (these are ECAL values already and are not traversed — they may be cyclic), complex numbers, "
-                "struct fields. "
-                "Limitations proved as theorems, each answered with an error: parameters of interface type — including plain interface{} — reject every "
+                "them the check reports the three defects (findings/C19-defect-E1/E2/E3-*.json). KNOWN FINDING nested-result-numbers: a result that is a slice / array / map of Go values ([]int, [2]uint8, map[string]int — declared so or "
+                "through interface{}) is passed to ECAL raw: not a container for ECAL at all, its numbers unconverted (proved about the code as it is: "
+                "nested_results_are_passed_raw; those cases carry kf= and spec= what the property demands). The candidate repair "
+                "fixes/C19-nested-result-numbers.patch (convert such results into ECAL lists / maps) is NOT applied: it would break Go->Go round trips "
+                "through ECAL that work today (a raw []string result of one bridged function handed to a []string parameter of another; []byte results "
+                "handed back), because the adapter's parameter check compares types for identity. Also passed on raw, by design: Go numbers a function "
+                "has put INTO a []interface{} / map[interface{}]interface{}, complex numbers, struct fields. Limitations proved as theorems, each answered with an error: parameters of interface type — including plain interface{} — reject every "
                 "argument; a variadic ...interface{} function (plugins) accepts at most one variadic argument; numeric variadics (...int, ...float64) and "
                 "parameters of a defined numeric type (time.Duration) accept no number. Mode R's reference semantics (Ecal.Reentry) is a specification; "
                 "the evidence that resolveFunction follows it is the differential run only."),
